@@ -22,6 +22,8 @@ from run_mutants import make_copy, sh  # noqa
 def main():
     prop, wt = sys.argv[1], sys.argv[2]
     full = "--full-suite" in sys.argv
+    tag = [a.split("=", 1)[1] for a in sys.argv if a.startswith("--tag=")]
+    tag = (tag[0] + "-") if tag else ""
     sd = os.path.join(wt, "_seed")
     notes = open(os.path.join(sd, "notes.md")).read() if os.path.exists(os.path.join(sd, "notes.md")) else ""
     for n in (1, 2, 3):
@@ -29,7 +31,7 @@ def main():
         demo = os.path.join(sd, "demo%d.py" % n)
         if not (os.path.exists(diff) and os.path.exists(demo)):
             continue
-        name = "%s-%d" % (prop, n)
+        name = "%s-%s%d" % (prop, tag, n)
         d = make_copy("seed-" + name)
         rc, out = sh(["patch", "-p1", "-d", d, "-i", diff])
         if rc != 0:
